@@ -37,6 +37,7 @@ fn run_line(line: &str) -> String {
         "URLP" => urlt::urlp(&ws[1..]),
         "HTTP" => http::run(&ws[1..]),
         "DECODE" => http::decode(&ws[1..]),
+        "BUILT" => http::built(&ws[1..]),
         "DBG" => dbg::run(&ws[1..]),
         "DBGPH" => dbg::dbgph(&ws[1..]),
         _ => proto::BAD.into(),
